@@ -26,7 +26,7 @@ def run(tier, seed, work, replay):
     E.tlc_export = export
     # as-built negative control: a filter that only looks at the first two characters is not closed under the
     # dot-segment removal of the redirecting step (TLC must find "/./\\host")
-    for neg in ("Neg_KMWeb_C17_PrefixOnly.cfg", "Neg_KMWeb_C17_CutsAtHash.cfg"):
+    for neg in ("Neg_KMWeb_C17_PrefixOnly.cfg", "Neg_KMWeb_C17_CutsAtHash.cfg", "Neg_KMWeb_C17_CleansQueryToo.cfg"):
         r = E.tlc(work, "KMWeb", neg, timeout=300, tag="neg-" + neg)
         if not r["violated"]:
             raise E.Inconclusive("negative control %s found no violation" % neg)
